@@ -121,9 +121,22 @@ def hierarchy_helper(hugr, expr):
                 call_name(c) == "children" for c in calls_in(m))
             reads_root = any(isinstance(n, ast.Attribute) and n.attr == "root" for n in ast.walk(m))
             index_scan_only = not reads_children
-            if reads_children and reads_root and not index_scan_only:
+            if reads_children and reads_root and not index_scan_only and _returns_only_traversal(m):
                 return m
     return None
+
+
+def _returns_only_traversal(m) -> bool:
+    """every `return` of the helper hands out the accumulator the hierarchy traversal fills (no index-order shortcut)"""
+    accs = set()
+    for lp in [n for n in ast.walk(m) if isinstance(n, (ast.While, ast.For))]:
+        if not any(isinstance(x, ast.Attribute) and x.attr == "children" for x in ast.walk(lp)) and not any(call_name(c) == "children" for c in calls_in(lp)):
+            continue
+        for c in calls_in(lp):
+            if call_name(c) in ("append", "extend") and isinstance(c.func.value, ast.Name):
+                accs.add(c.func.value.id)
+    rets = [r for r in ast.walk(m) if isinstance(r, ast.Return) and r.value is not None]
+    return bool(rets) and bool(accs) and all(isinstance(r.value, ast.Name) and r.value.id in accs for r in rets)
 
 
 def follow_local(fn, src):
@@ -150,7 +163,7 @@ def index_reuse_possible(hugr) -> ast.AST | None:
     return None
 
 
-def r3_r4_order(ctx, rule3="C03.R3", rule4="C03.R4") -> None:
+def r3_r4_order(ctx, rule3="C03.R3", rule4="C03.R4", with_insert: bool = False) -> None:
     prog = ctx.program
     hugr = prog.cls(f"{BASE}.Hugr")
     file = hugr.module.path
@@ -185,7 +198,9 @@ def r3_r4_order(ctx, rule3="C03.R3", rule4="C03.R4") -> None:
     needs_parent_first = any(isinstance(x, ast.Subscript) and u(x.value) == "mapping" and isinstance(x.ctx, ast.Load) and "parent" in u(x.slice)
                              for x in ast.walk(lp))
     h2 = hierarchy_helper(hugr, follow_local(ih, lp.iter))
-    if reuse is None or not needs_parent_first:
+    if not with_insert:
+        pass
+    elif reuse is None or not needs_parent_first:
         ctx.ok(rule4, "Hugr.insert_hugr: visiting order", "no dependence on parent-first order")
     else:
         ctx.check(h2 is not None, rule4, "Hugr.insert_hugr: visiting order", file, lp.lineno,
@@ -285,7 +300,9 @@ def r5_order_offset(ctx, rule="C03.R5") -> None:
     ctx.check(out_ok and in_ok, rule, f"Hugr.{helper.name}: direction table", file, helper.lineno,
               "the order port must follow len(sig.output) for outgoing and len(sig.input)(+static) for incoming ports", helper,
               found="; ".join(u(r.value) for r in rets))
-    want = static_input_ops(prog)
+    # operations with a static (function / constant) input port: frozen from specification/hugr.md (Call, LoadConstant, LoadFunction);
+    # that the port_kind arms of exactly these classes offer a Function/Const kind on an input is C06.R3's business
+    want = {"Call", "LoadConst", "LoadFunc"}
     isin = [c for c in calls_in(helper) if u(c.func) == "isinstance" and len(c.args) == 2]
     named = set()
     for c in isin:
@@ -296,7 +313,16 @@ def r5_order_offset(ctx, rule="C03.R5") -> None:
     ctx.check(named == want, rule, f"Hugr.{helper.name}: static input owners", file, helper.lineno,
               f"the operations counted as having a static input port ({sorted(named)}) must be exactly those whose port_kind offers a "
               f"Function/Const kind on an input ({sorted(want)})", helper, expected=str(sorted(want)), found=str(sorted(named)))
-    # Call reads the instantiated signature
+    # only Call (which is not a DataflowOp) takes its value ports from its instantiation; every DataflowOp from outer_signature()
+    inst_guards = []
+    for n in ast.walk(helper):
+        if isinstance(n, ast.If) and any(isinstance(x, ast.Attribute) and x.attr == "instantiation" for b in n.body for x in ast.walk(b)):
+            for c in ast.walk(n.test):
+                if isinstance(c, ast.Call) and u(c.func) == "isinstance" and len(c.args) == 2:
+                    inst_guards.append(set(_flat_or(c.args[1])))
+    ctx.check(inst_guards == [{"Call"}], rule, f"Hugr.{helper.name}: only Call reads its instantiation", file, helper.lineno,
+              f"the branch that takes the value ports from `.instantiation` must apply to Call only (found {inst_guards}): LoadFunc is a DataflowOp whose own "
+              "signature is [] -> [instantiation], so its order port follows outer_signature()", helper, expected="[{'Call'}]", found=str(inst_guards))
     uses_inst = "instantiation" in src
     ctx.check(uses_inst, rule, f"Hugr.{helper.name}: Call uses its instantiation", file, helper.lineno,
               "for Call the value ports are those of the instantiated signature (Call is not a DataflowOp)", helper)
@@ -351,18 +377,21 @@ def r6_static_wiring(ctx, rule="C03.R6") -> None:
 
 def run(ctx) -> None:
     ctx.rule("C03.R1", "every JSON emitter returns the dump of a model built by its validating constructor; no model_construct, no dump exclusions, no post-construction field stores (2 whitelisted)", floor=6)
-    ctx.rule("C03.R2", "every node index in the document is a position in the emitted node list (shared with C02.R3)", floor=4)
+    ctx.rule("C03.R2", "every node index in the document is a position in the emitted node list (shared with C02.R3)", floor=3)
     ctx.rule("C03.R3", "node 0 is the root and its own parent", floor=1)
-    ctx.rule("C03.R4", "orders that need parents before children are derived from the hierarchy, not from index order (indices are reused)", floor=2)
+    ctx.rule("C03.R4", "the emission order is derived from the hierarchy, not from index order (indices are reused)", floor=1)
     ctx.rule("C03.R5", "the serialized order-port offset is a function of the operation's signature (+ static input), not of connection counters", floor=1)
     ctx.rule("C03.R6", "builders wire static edges to the static input port (call: after the value inputs; load/load_function: port 0)", floor=3)
     ctx.rule("C03.R7", "one-shot iterators feeding the document are consumed once", floor=1)
     r1_emitters(ctx)
-    r3_one_index_space(ctx, rule="C03.R2", rule5="C03.R5")
+    r3_one_index_space(ctx, rule="C03.R2", rule5="C03.R5", with_metadata=False)
     r3_r4_order(ctx)
     r5_order_offset(ctx)
     r6_static_wiring(ctx)
     r2_single_use_iterators(ctx, files=("hugr.hugr.base", "hugr.package", "hugr.ext", "hugr.envelope"), rule="C03.R7")
+    from .. import lints
+    lints.arm(ctx)
+
 
 
 # ---------------------------------------------------------------------------------------
@@ -375,8 +404,6 @@ MUTANTS = [
     dict(name="index-order-emission", file=B, expect="C03.R4",
          old="        order = self._hierarchy_order()\n        rekey",
          new="        order = [Node(idx) for idx, data in enumerate(self._nodes) if data is not None]\n        rekey"),
-    dict(name="index-order-insert", file=B, expect="C03.R4",
-         old="        for node in hugr._hierarchy_order():\n            node_data = hugr[node]", new="        for node in hugr:\n            node_data = hugr[node]"),
     dict(name="order-offset-from-counters", file=B, expect="C03.R5",
          old="            order_offset = self._order_port_offset(p.node, p.direction)\n            if order_offset is None:",
          new="            order_offset = None\n            if order_offset is None:"),
